@@ -4105,14 +4105,15 @@ class UDFFileEntry:
 
         return new_num_extents - old_num_extents
 
-    def remove_file_ident_desc_by_name(self, name, logical_block_size):
-        # type: (bytes, int) -> int
+    def remove_file_ident_desc_by_name(self, name, logical_block_size, encoding=None):
+        # type: (bytes, int, Optional[str]) -> int
         """
         Remove a UDF File Identifier Descriptor from this UDF File Entry.
 
         Parameters:
          name - The name of the UDF File Identifier Descriptor to remove.
          logical_block_size - The logical block size to use.
+         encoding - The encoding the name is stored in, if known.
         Returns:
          The number of extents removed due to removing this File Identifier Descriptor.
         """
@@ -4126,10 +4127,10 @@ class UDFFileEntry:
         # If flags bit 3 is set, the entries are sorted.
         desc_index = len(self.fi_descs)
         for index, fi_desc in enumerate(self.fi_descs):
-            if fi_desc.fi == name:
+            if fi_desc.fi == name and encoding in (None, fi_desc.encoding):
                 desc_index = index
                 break
-        if desc_index == len(self.fi_descs) or self.fi_descs[desc_index].fi != name:
+        if desc_index == len(self.fi_descs):
             raise pycdlibexception.PyCdlibInvalidInput('Cannot find file to remove')
 
         this_desc = self.fi_descs[desc_index]
@@ -4310,8 +4311,9 @@ class UDFFileEntry:
         child = None
 
         for fi_desc in self.fi_descs:
-            if latin1_currpath and fi_desc.encoding == 'latin-1':
-                eq = fi_desc.fi == latin1_currpath
+            # An identifier is only equal to a name in its own encoding.
+            if fi_desc.encoding == 'latin-1':
+                eq = bool(latin1_currpath) and fi_desc.fi == latin1_currpath
             else:
                 eq = fi_desc.fi == ucs2_currpath
 
